@@ -38,7 +38,8 @@ let parse_blocks (t : string) : (n list * dm) list =
 
 let err_name = function
   | EScalar -> "err:scalar" | EListSeg -> "err:listseg" | EBounds -> "err:bounds" | ENoParent -> "err:noparent"
-  | ELoad -> "err:load" | EWrongKind -> "err:wrong_kind" | EOther -> "err:other" | EPanic -> "panic" | EFuel -> "err:fuel"
+  | ELoad -> "err:load" | EWrongKind -> "err:wrong_kind" | EOther -> "err:other" | EStore -> "err:store"
+  | EPanic -> "panic" | EFuel -> "err:fuel"
 
 let seen_text = function None -> "-" | Some v -> dump v
 
@@ -61,23 +62,21 @@ let fn_of (t : string) : dm option -> dm option =
   else if t = "wrap" then (fun x -> match x with Some v -> Some (DList [v]) | None -> Some (DList []))
   else let v = dm_of_string (after "c:" t) in (fun _ -> Some v)
 
-type stepspec = { path : xseg list; fn : string; cp : bool }
+type stepspec = { path : xseg list; fn : string; cp : bool; fault : bool }
 let parse_step (t : string) : stepspec =
   match String.split_on_char ',' t with
-  | [p; f; c] -> { path = parse_path p; fn = f; cp = (c = "1") }
+  | [p; f; c] -> { path = parse_path p; fn = f; cp = starts_with "1" c; fault = String.contains c '!' }
   | _ -> failwith ("bad step " ^ t)
 
 (* one step of the model under quirks q: outcome text (with the callback log) and the continuation *)
 let model_step mklink (q : quirks) (st : (n list * dm) list) (cur : dm) (s : stepspec)
   : string * (dm * (n list * dm) list) option =
-  match focused_transform_segs rfc_ltb mklink q (fn_of s.fn) s.cp fuel st cur s.path with
+  match focused_transform_segs rfc_ltb mklink q (fn_of s.fn) s.cp s.fault fuel st cur s.path with
   | Ok (v, (st', log)) ->
     ("ok:" ^ dump v ^ "#cb:" ^ String.concat "," (List.map seen_text log),
      if has_nil v then None else Some (v, st'))
-  | Err e ->
-    (* the log of a failed run is not returned by the model; the callback ran iff the error is one of
-       the base-case errors, which are exactly those reached after the call *)
-    (err_name e, None)
+  | Err EPanic -> ("panic", None)
+  | Err e -> (err_name e, Some (cur, st))   (* a failed transform leaves root and store as they were *)
 
 let listing (bl : (n list * dm) list) : string =
   if bl = [] then "-" else
@@ -144,6 +143,16 @@ let do_ft id blocks root steps links obs =
               | XOk (Some t', seen) ->
                 let v = raw t' in
                 if s.path = [] && not (root_accepts !cur v) then starts_with "err:" outcome
+                else if
+                  (* a Store is attempted iff the path crosses a link (the SPEC re-links a block); it must
+                     fail when the storage is faulty or a re-encoded block holds a link the codec refuses:
+                     then the transform fails as a whole *)
+                  (let crossed =
+                     match xupdate rfc_ltb (fun _ -> [n_of_int 255]) f s.cp st_final t (render_path s.path) with
+                     | XOk (Some tm, _) -> List.exists (fun (c, _) -> c = [n_of_int 255]) (blocks_of tm [])
+                     | _ -> false in
+                   (s.fault && crossed) || List.exists (fun (_, b) -> has_refused b) (blocks_of t' []))
+                then outcome = "err:store"
                 else begin
                   (* block structure: every block of the SPEC's tree must be in the store as annotated,
                      and the ones that were not there before are the blocks this step has to add *)
@@ -175,6 +184,7 @@ let do_ft id blocks root steps links obs =
             end;
             if starts_with "ok:" outcome && not (String.contains outcome '!') then
               cur := dm_of_string (after "ok:" outcome)
+            else if starts_with "err:" outcome then ()   (* a failed transform: the run goes on from the same tree *)
             else stop := true
           end) sobs;
       if ex <> "exp:" ^ string_of_dm (erase (xexpand xfuel st_final !cur)) then add "reload_differs";
@@ -281,6 +291,9 @@ let do_wt id blocks root selt fn obs =
 
 let () =
   iter_lines (fun line ->
+      (* an observation the driver cannot even read (e.g. a stored block that does not load: "!load")
+         is a failure of the property, not of the driver *)
+      try
       match split_tab line with
       | [id; "quirks"; obs] ->
         current := List.filter_map (fun kv ->
@@ -290,4 +303,8 @@ let () =
         print_string id; print_char '\t'; print_string obs; print_char '\t'; print_endline "ok"
       | [id; "ft"; blocks; root; steps; links; obs] -> do_ft id blocks root steps links obs
       | [id; "wt"; blocks; root; s; fn; obs] -> do_wt id blocks root s fn obs
-      | _ -> ())
+      | _ -> ()
+      with Failure _ | Not_found | Invalid_argument _ ->
+        (match split_tab line with
+         | id :: _ -> print_string id; print_endline "\tunreadable\tfail:unreadable_observation"
+         | [] -> ()))
